@@ -140,6 +140,12 @@ def gen_circuit(spec):
         pairs = [(i, nq - i - 1) for i in range(outers)] + [
             (outers + 1, outers + 2 + sw), (outers, outers + 1),
             (outers + 2 + sw, outers + 3 + sw)]
+        if spec.get('looping_prefix'):
+            # executed gates BEFORE the leading swaps that get backtracked
+            for q in range(nq):
+                c.append_gate(HGate(), [q])
+            for q in range(0, nq - 1, 2):
+                c.append_gate(CZ(), (q, q + 1))
         for p in pairs:
             c.append_gate(CZ(), p)
         return c
@@ -453,7 +459,8 @@ def events_to_moves(events, in_ops, tab, pam):
             p1, pi1 = e[1], e[2]
             nxt = events[k + 1] if k + 1 < n else None
             nx2 = events[k + 2] if k + 2 < n else None
-            if nxt and nxt[0] == 'emitblock' and nx2 and nx2[0] == 'aperm':
+            if nxt and nxt[0] == 'emitblock' and nx2 and nx2[0] == 'aperm' \
+                    and sorted(nx2[1]) == sorted(p1):
                 ploc, pib = nxt[2], nxt[3]
                 p2, pi2 = nx2[1], nx2[2]
                 lloc = [pib.index(x) for x in ploc]
@@ -677,6 +684,12 @@ def run_case(spec):
             pl = list(data.placement)
             ok = not connected(N, edges, pl) or len(set(pl)) != len(pl) or \
                 any(x >= N for x in pl)
+        if stage == 'placement' and spec['placement'] == 'greedy' and \
+                raised[1] == 'AssertionError':
+            # the greedy loop ran out of neighbours (machine component smaller than the
+            # circuit) before it wrote a placement: the model has no placement to judge
+            res['lines'].pop()
+            res['expect'].pop()
         if not ok:
             res['viol'].append((
                 f'unexpected-{raised[1]}-in-{stage}',
@@ -772,13 +785,14 @@ class CaseTimeout(BaseException):
     pass
 
 
-CASE_TIMEOUT_S = 25
+CASE_TIMEOUT_S = 40
 LOCK_WAIT_S = 900      # wait for the machine-wide bqskit runtime lock (/work/RUNTIME_LOCK.md)
 
 
-def _run_chunk(specs):
+def _run_chunk(specs, limit=None):
     out = []
     import signal
+    limit = limit or CASE_TIMEOUT_S
 
     def on_alarm(signum, frame):
         raise CaseTimeout()
@@ -790,7 +804,7 @@ def _run_chunk(specs):
                         'viol': [], 'lines': [], 'expect': [], 'stats': {}})
             continue
         try:
-            signal.alarm(CASE_TIMEOUT_S)
+            signal.alarm(limit)
             if s.get('pam'):
                 from harness.c09_pam import run_pam_case
                 out.append(run_pam_case(s))
@@ -799,11 +813,8 @@ def _run_chunk(specs):
             signal.alarm(0)
         except CaseTimeout:
             timeouts += 1
-            out.append({'spec': s, 'viol': [(
-                'mapping-pass-does-not-terminate',
-                f'a mapping pass did not finish within {CASE_TIMEOUT_S} s on a small case '
-                '(cases of this size take well under a second)', {'spec': s}, True)],
-                'lines': [], 'expect': [], 'stats': {}, 'raised': ('timeout', '', '')})
+            out.append({'spec': s, 'timeout': True, 'viol': [], 'lines': [], 'expect': [],
+                        'stats': {}, 'raised': ('timeout', '', '')})
         except Exception as e:        # harness trouble: report, never hide
             import traceback
             signal.alarm(0)
@@ -901,6 +912,10 @@ def gen_specs(rng, thorough):
                placement='trivial', layout=None, partition=None, radix=2)
         s['im0'], s['fm0'] = list(range(n)), list(range(n))
         specs.append(s)
+        s2 = dict(s)
+        s2['looping_prefix'] = True
+        s2['seed'] = s['seed'] + 1
+        specs.append(s2)
     # permutation-aware mapping, fabricated exact permutation data
     for _ in range(cnt(1500 if thorough else 70)):
         N = rng.randint(3, 7)
@@ -916,7 +931,17 @@ def gen_specs(rng, thorough):
         if s['block'] == 3:
             s['kinds'] = '122223'
         specs.append(s)
-    for _ in range(10 if thorough else 1):
+    # PAM on qutrits (pam.py inserts SwapGate() where sabre.py inserts SwapGate(radix))
+    for _ in range(cnt(60 if thorough else 6)):
+        N = rng.randint(3, 4)
+        n = rng.randint(2, N)
+        s = mk(n, N, random_connected_graph(rng, N), nops=rng.randint(3, 8),
+               placement=rng.choice(['greedy', 'custom']), layout=rng.choice([None, 1]))
+        s['im0'], s['fm0'] = list(range(n)), list(range(n))
+        s.update(radix=3, partition=None, kinds='1222')
+        s.update(pam=True, source='fab', block=2, gcw=0.1, barrier_p=0.2)
+        specs.append(s)
+    for _ in range(0 if os.environ.get('C09_NO_REAL') else (10 if thorough else 1)):
         N = rng.randint(3, 5)
         n = rng.randint(3, min(N, 4))
         s = mk(n, N, random_connected_graph(rng, N), nops=rng.randint(4, 8),
@@ -1033,7 +1058,9 @@ def run(ck: Check):
         'each case = (seeded circuit, coupling graph, placement pass, layout passes, '
         'algorithm parameters, initial mappings); every move of the real routing pass '
         'replayed through BqVerif.Route (wf) and the routed circuit re-derived by the '
-        'model (wfi); oracles (1)-(5) evaluated on the real result')
+        'model (wfi); oracles (1)-(5) evaluated on the real result.  distinct_nontrivial = '
+        'distinct cases whose routing run changed the assignment pi (at least one swap, '
+        'backtracked swap or PAM block move)')
     ck.coverage['exhaustive'] = False
     ck.coverage['graph_space'] = (
         'all connected labelled graphs on 2..4 vertices; '
@@ -1046,6 +1073,11 @@ def run(ck: Check):
     par = [sp for sp in specs if sp.get('source') != 'real']
     chunks = [par[i::nproc * 4] for i in range(nproc * 4)]
     chunks = [c for c in chunks if c]
+    # import everything the cases need BEFORE forking (the first case of a worker must not
+    # pay for the imports under its time limit)
+    import bqskit.compiler  # noqa: F401
+    import bqskit.passes  # noqa: F401
+    import harness.c09_pam  # noqa: F401
     ctx = mp.get_context('fork')
     bg = None
     if serial:      # these start their own bqskit runtime; run them beside the pool
@@ -1066,6 +1098,19 @@ def run(ck: Check):
                          'lines': [], 'expect': [], 'stats': {}} for sp in serial]
             bg.kill()
         bg.join(timeout=10)
+    # a case that ran into its time limit is repeated alone with a long limit: on a loaded
+    # machine a slow case is not a hanging pass
+    suspects = [i for i, r in enumerate(results) if r.get('timeout')]
+    for i in suspects[:4]:
+        rr = _run_chunk([results[i]['spec']], limit=150)[0]
+        if rr.get('timeout'):
+            rr['viol'] = [(
+                'mapping-pass-does-not-terminate',
+                'a mapping pass did not finish within 150 s on a small case (cases of this '
+                'size take well under a second)', {'spec': rr['spec']}, True)]
+        results[i] = rr
+    for i in suspects[4:]:
+        results[i]['skipped'] = 'timed out; not repeated (four other cases were)'
     ck.coverage['phase_s']['workload'] = round(time.time() - t0, 1)
     lines = [ln for r in results for ln in r['lines']]
     replies = ck.driver('route', lines) if lines else []
@@ -1081,7 +1126,13 @@ def run(ck: Check):
         k = len(r['lines'])
         rp = replies[pos:pos + k]
         pos += k
-        ck.count(('case', json.dumps(spec, sort_keys=True, default=str)))
+        if r.get('skipped'):      # not evaluated: never counted as covered
+            ck.bump('SKIPPED_CASES', r['skipped'][:80])
+            print(f'NOTE C09: case skipped ({r["skipped"][:100]})', file=sys.stderr)
+            continue
+        st = r.get('stats', {})
+        ck.count(('case', json.dumps(spec, sort_keys=True, default=str)),
+                 nontrivial=(st.get('s', 0) + st.get('u', 0) + st.get('p', 0)) > 0)
         ck.bump('cases_by_N', str(spec['N']))
         ck.bump('cases_by_n', str(spec['n']))
         ck.bump('placement_pass', spec['placement'])
@@ -1096,10 +1147,6 @@ def run(ck: Check):
                 continue
             ck.bump('moves', {'x': 'exec', 's': 'swap', 'u': 'unswap(backtrack)',
                               'b': 'pam-barrier', 'p': 'pam-block'}[kk], v)
-        if r.get('skipped'):
-            ck.bump('SKIPPED_CASES', r['skipped'][:80])
-            print(f'NOTE C09: case skipped ({r["skipped"][:100]})', file=sys.stderr)
-            continue
         if spec.get('pam'):
             ck.bump('pam_cases', spec['source'])
             pam_dev = max(pam_dev, r.get('variant_dev', 0.0)) if spec['source'] == 'fab' \
